@@ -323,7 +323,7 @@ impl Ldap {
         }
 //@ loop 1
             invariant
-                re_vec@ + stream.items@ == all, //# C10.inv_collected_prefix_plus_remaining_is_everything
+                re_vec@ + stream.items@ == all, //# C04+C10.inv_collected_prefix_plus_remaining_is_everything
                 self.controls is None && self.timeout is None && self.search_opts is None,
             ensures
                 stream.items@.len() == 0,
